@@ -204,3 +204,14 @@ pub(super) fn vk_state_eq(a: &State<'static, u8>, b: &State<'static, u8>) -> boo
         _ => false,
     }
 }
+
+/// For harnesses in dependent crates: run `f` on a `QueuedIter` over a queue holding `events` (in order).
+pub fn vk_with_queued_iter<R>(events: &[(Event, u16)], f: impl FnOnce(QueuedIter) -> R) -> R {
+    let mut q = Queue::new();
+    let mut i = 0;
+    while i < events.len() {
+        let _ = q.push_back(Queued { event: events[i].0, since: events[i].1 });
+        i += 1;
+    }
+    f(QueuedIter(q.iter()))
+}
